@@ -160,6 +160,14 @@ fn dd_case(item: u64, rng: &mut Rng, acc: &mut Acc) {
             acc.count("dd_nonfinite_skipped");
             continue;
         }
+        // a double-double keeps 106 bits only while its low word stays a normal f64: values
+        // (or their products) close to the f64 exponent limits lose precision in the monitor
+        // scalar itself, so such samples cannot be judged
+        let wide: Vec<&DD> = all_vals.iter().copied().chain(m.u_vectors.iter().flatten()).chain(m.shift.iter().flatten()).chain(m.qt.iter().flatten()).chain(m.qt_inv.iter().flatten()).collect();
+        if wide.iter().any(|v| v.hi != 0.0 && !(v.hi.abs() > 1e-120 && v.hi.abs() < 1e120)) {
+            acc.count("dd_exponent_range_skipped");
+            continue;
+        }
         let l = ddm(&m.l);
         let inv = ddm(&m.inv);
         let qt = ddm(&m.qt);
@@ -223,15 +231,18 @@ fn dd_case(item: u64, rng: &mut Rng, acc: &mut Acc) {
             a += &xq[e] * (q(mass) * q(mass) + q(4f64.powi(js[e])));
         }
         let mut b = Q::zero();
+        let mut b_maj = Q::zero();
         let uv: Vec<Vec<Q>> = m.u_vectors.iter().map(|v| v.iter().map(ddq).collect()).collect();
         for i in 0..nl {
             for j in 0..nl {
                 let dot: Q = (0..6).map(|k| &uv[i][k] * &uv[j][k]).fold(Q::zero(), |x, y| x + y);
-                b += dot * &inv[i][j];
+                let t = dot * &inv[i][j];
+                b_maj += t.abs();
+                b += t;
             }
         }
         let vq = &a - &b;
-        let scale = qf(&(a.abs() + b.abs()));
+        let scale = qf(&(a.abs() + b_maj));
         rec("v_vs_A-u^T_inv_u", qf(&(ddq(&o.v) - &vq).abs()) / scale, &mut fails, acc);
         // 6. shift = inverse * u_vectors
         let mut worst = 0.0f64;
@@ -259,9 +270,17 @@ fn dd_case(item: u64, rng: &mut Rng, acc: &mut Acc) {
                 let y = ddq(&o.k[li][k]) + ddq(&m.shift[li][k]);
                 let lhs = &y * &y * &two_lambda;
                 let rhs = ddq(&o.v) * &w * &w;
-                let den = ddq(&o.v) * &wmaj * &wmaj + (ddq(&o.k[li][k]).abs() + ddq(&m.shift[li][k]).abs()) * (ddq(&o.k[li][k]).abs() + ddq(&m.shift[li][k]).abs()) * &two_lambda;
+                // scale: magnitudes of the terms that were summed (and may have cancelled) to form
+                // k and the shift: sqrt(v)*sum|Qt^-1 q| and sqrt(2 lambda)*sum|inverse*u|
+                let sv = qf(&ddq(&o.v).abs()).sqrt() * qf(&wmaj) + qf(&two_lambda).sqrt() * (qf(&maj) + qf(&ddq(&m.shift[li][k]).abs()) + qf(&ddq(&o.k[li][k]).abs()));
+                let den = q(sv * sv);
                 if !den.is_zero() {
-                    kworst = kworst.max(qf(&((&lhs - &rhs).abs() / &den)));
+                    let r = qf(&((&lhs - &rhs).abs() / &den));
+                    if std::env::var("C19_DEBUG").is_ok() && r > 1e-25 {
+                        eprintln!("   q={:?} qt_inv_row={:?} u_vectors={:?} inv_row={:?}", m.q.iter().map(|v| v[k]).collect::<Vec<_>>(), m.qt_inv[li], m.u_vectors.iter().map(|v| v[k]).collect::<Vec<_>>(), m.inv[li]);
+                        eprintln!("loop {} comp {}: k={:?} shift={:?} y={:e} w={:e} lhs={:e} rhs={:e} den={:e} r={:e} v={:?} lambda={:?}", li, k, o.k[li][k], m.shift[li][k], qf(&y), qf(&w), qf(&lhs), qf(&rhs), qf(&den), r, o.v, m.lambda);
+                    }
+                    kworst = kworst.max(r);
                 }
                 if (y.is_positive() && w.is_negative()) || (y.is_negative() && w.is_positive()) {
                     if qf(&(y.abs() / (ddq(&o.k[li][k]).abs() + ddq(&m.shift[li][k]).abs()))) > 2f64.powi(-60) {
@@ -283,9 +302,15 @@ fn dd_case(item: u64, rng: &mut Rng, acc: &mut Acc) {
 }
 
 pub fn run(ctx: &Ctx) -> i32 {
-    let Some(range) = gamma_fn_range() else {
-        out("INCONCLUSIVE property=C19 cannot locate `pub fn inverse_gamma_lr` in /repo/src/gamma.rs");
-        return 3;
+    let mut range_note: Option<String> = None;
+    let range = match gamma_fn_range() {
+        Some(r) => r,
+        None => {
+            // cannot locate the function (renamed / moved): fall back to "anywhere in gamma.rs"
+            // and say so; monitor 2 is unaffected
+            range_note = Some("`pub fn inverse_gamma_lr` not found in src/gamma.rs: narrowing sites were only required to lie in gamma.rs".into());
+            ("gamma.rs".to_string(), 1, u32::MAX)
+        }
     };
     let quick = ctx.quick();
     let n_items = ctx.n(400, 8000);
@@ -305,5 +330,9 @@ pub fn run(ctx: &Ctx) -> i32 {
     .assume("to_f64 is the only way the MomTropFloat trait lets a value leave the user's type, so the census is complete for narrowing as an information flow")
     .extra("gamma_function_line_range", json!({"file": range.0, "first": range.1, "last": range.2}))
     .min(500);
+    let mut fin = fin;
+    if let Some(n) = range_note {
+        fin.inconclusive.push(n);
+    }
     finish(ctx, acc, fin)
 }
